@@ -52,10 +52,14 @@ def run_scenario(sess, sc, first=False):
     plan = sc["plan"]
     procs = sc["procs"]
     replies = {}
-    for i, st in enumerate(procs):
-        reqs, sop = reqs_for(sess, st)
-        replies[i] = fr.spawn(i, st.get("lane", "S"), reqs, sop)
     kind = plan["kind"]
+
+    def spawn(i):
+        reqs, sop = reqs_for(sess, procs[i])
+        replies[i] = fr.spawn(i, procs[i].get("lane", "S"), reqs, sop)
+    if kind != "model":
+        for i in range(len(procs)):
+            spawn(i)
     info = {"steps": 0}
 
     def alive(i):
@@ -107,6 +111,42 @@ def run_scenario(sess, sc, first=False):
             if alive(p):
                 replies[p] = fr.step(p)
         finish_all()
+    elif kind == "model":
+        # a behaviour of CacacheFS.tla (spec/MC_FSSched.tla) as a schedule: "start" spawns the
+        # process (it stops before its first visible call), any other label lets the process run
+        # until it has issued the call the action stands for
+        realised = missed = 0
+        for (p, a) in plan["steps"]:
+            if a == "start":
+                spawn(p)
+                continue
+            if p not in replies or not alive(p):
+                missed += 1
+                continue
+            if a == "write_tmp":
+                continue                    # user-space copy or any number of writes: not scheduled
+            if a == "walk_visit":
+                replies[p] = fr.step(p)     # one visible call of the directory walk
+                realised += 1
+                continue
+            hit = False
+            for _ in range(400):
+                if not alive(p):
+                    break
+                replies[p] = fr.step(p)
+                last = next((e for e in reversed(fr.events) if e["ev"] == "sys" and e["p"] == p), None)
+                if last is not None and sched_class(last) == a:
+                    hit = True
+                    break
+            realised += 1 if hit else 0
+            missed += 0 if hit else 1
+            if not hit:
+                info.setdefault("model_missed", []).append(a)
+        for i in range(len(procs)):
+            if i not in replies:
+                spawn(i)
+        finish_all()
+        info["model_steps"] = (realised, missed)
     else:
         raise ToolError("unknown plan kind " + kind)
     # abstract the results of finished processes
@@ -226,12 +266,19 @@ def _run_fs_batch(args):
             if sc.get("allowed"):
                 touches += touch_events(sess, sc, inf["events"])
             # L2 for every run in the thorough tier, for every third one in the quick tier
-            if os.environ.get("VERIF_TIER_EFFECTIVE", "quick") != "quick" or (len(l2runs) % 3 == 0):
+            if os.environ.get("VERIF_TIER_EFFECTIVE", "quick") != "quick" or (len(l2runs) % 3 == 0) \
+                    or sc["plan"]["kind"] == "model":
                 l2runs.append(L2.l2_events(inf["events"]))
             else:
                 l2runs.append(None)
             infos.append({"calls": [{k: c[k] for k in ("name", "area", "file", "mut", "ret", "count", "p")}
                                     for c in inf["calls"]], "results": inf["results"], "beyond": inf.get("beyond")})
+            if sc["plan"]["kind"] == "model":
+                exp = sc["plan"].get("expect", {})
+                got = {str(p_): bool(isinstance(r_, dict) and r_.get("ok")) for p_, r_ in inf["results"].items()}
+                infos[-1]["model_steps"] = inf.get("model_steps")
+                infos[-1]["model_missed"] = inf.get("model_missed", [])
+                infos[-1]["model_results_agree"] = all(got.get(k) == v for k, v in exp.items())
             fcases.add(json.dumps(inf["case"]))
         sess.close()
         finfo, fdivs = validate_fs(events, sess.u.lens(), mode, resolvable, os.path.join(bdir, "trace"),
@@ -781,6 +828,109 @@ def conc_scenarios(rng, tier, lanes=("S", "Aa", "Ta")):
                         "procs": [sa, sb], "plan": {"kind": "free"}, "cont": [],
                         "variant": {"pair": [a, b], "warm": wname, "lanes": [lane_a, lane_b]}})
     return out, (prog, ops, warm)
+
+
+def sched_class(e):
+    """class of a visible call in the vocabulary of CacacheFS.tla's actions, readers included"""
+    from . import l2 as L2
+    # (a call that fails on its own - unlink of a missing file, open of a missing bucket - still
+    # is the step the action stands for: the specification's action has the error outcome too)
+    c = L2.event_class(dict(e, ret=max(0, e["ret"]), count=max(0, e["ret"])))
+    if c != "noise":
+        return c
+    name, area = e["name"], e["area"]
+    opens = ("openat", "open", "openat2")
+    reads = ("read", "pread64", "readv", "mmap")
+    if area == "index" and e["file"] and name in opens and not e["mut"]:
+        return "open_bucket_r"
+    if area == "index" and e["file"] and name in reads:
+        return "read_bucket"
+    if area == "content" and e["file"] and name in opens and not e["mut"]:
+        return "open_content"
+    if area == "content" and e["file"] and name in reads:
+        return "read_content"
+    if area == "content" and name in ("statx", "newfstatat", "stat", "lstat", "access", "faccessat", "faccessat2"):
+        return "stat_content"
+    return "noise"
+
+
+def model_schedules(rng, tier, want, lanes=("S", "Aa", "Ta"), nsim=None):
+    """TLC simulates CacacheFS.tla (three processes, one operation each, every interleaving of
+    their actions possible) and prints each behaviour's (process, action) sequence; every
+    distinct sequence in which at least two operations overlap becomes a scenario"""
+    from . import mc as M
+    from .common import WORK, run_tlc
+    wd = os.path.join(WORK, "model_sched")
+    os.makedirs(wd, exist_ok=True)
+    cfg = os.path.join(wd, "sched.cfg")
+    with open(cfg, "w") as f:
+        f.write('CONSTANTS\n  Procs = {p1, p2, p3}\n  Keys = {"k1", "k2"}\n  Datas = {"d1", "d2"}\n'
+                '  OpSet <- MCOpsAll\n  IsEmptyData <- MCIsEmpty\n  MaxStarts = 3\n  AllowCrash = FALSE\n'
+                '  MaxFaults = 0\n  NoFile = NoFile\nSPECIFICATION SSpec\nINVARIANT ExportSched\nCHECK_DEADLOCK FALSE\n')
+    nsim = nsim or max(400, want * 12)
+    res = run_tlc("MC_FSSched", cfg, wd, workers=1, timeout=900,
+                  extra=["-simulate", "num=%d" % nsim, "-depth", "90", "-seed", str(rng.randrange(1 << 30))])
+    behs, seen = [], set()
+    for m in re.finditer(r'<<"SCHED", "((?:[^"\\]|\\.)*)">>', res["out"]):
+        txt = m.group(1).encode().decode("unicode_escape")
+        if txt in seen:
+            continue
+        seen.add(txt)
+        behs.append(json.loads(txt))
+    if not behs:
+        raise ToolError("no schedules exported:\n" + res["out"][-2000:])
+
+    def overlaps(b):
+        # some process acts between another one's start and its last action, and something is written
+        last = {}
+        for i, st in enumerate(b["steps"]):
+            last[st["p"]] = i
+        first = {}
+        for i, st in enumerate(b["steps"]):
+            first.setdefault(st["p"], i)
+        ps = list(first)
+        inter = any(first[x] < first[y] < last[x] or first[y] < first[x] < last[y]
+                    for x in ps for y in ps if x < y)
+        mut = sum(1 for st in b["steps"] if st["a"] == "start" and st["o"]["op"] in ("write", "write_hash", "remove", "remove_hash"))
+        return inter and mut >= 1
+    good = [b for b in behs if overlaps(b)]
+    rng.shuffle(good)
+    good.sort(key=lambda b: -sum(1 for st in b["steps"] if st["a"] == "start"
+                                 and st["o"]["op"] in ("write", "remove", "remove_hash")))
+    out = []
+    pidx = {"p1": 0, "p2": 1, "p3": 2}
+    for b in good[:want]:
+        prog = {"keys": {}, "blobs": {}, "steps": []}
+        keys = {"k1": G.add_key(prog, "model-k1-%d" % rng.randrange(10 ** 6)), "k2": G.add_key(prog, "model-k2-%d" % rng.randrange(10 ** 6))}
+        datas = {"d1": G._mk_data(prog, rng, 13), "d2": G._mk_data(prog, rng, 900)}
+        procs = [None, None, None]
+        for st in b["steps"]:
+            if st["a"] != "start":
+                continue
+            o = st["o"]
+            lane = rng.choice(lanes)
+            name = o["op"]
+            if name == "write":
+                c = {"op": "write", "key": keys[o["k"]], "data": datas[o["d"]], "algo": "sha256", "how": "oneshot"}
+            elif name == "write_hash":
+                c = {"op": "write", "data": datas[o["d"]], "algo": "sha256", "how": "oneshot"}
+            elif name in ("read", "metadata", "remove"):
+                c = {"op": name, "key": keys[o["k"]]}
+            elif name == "read_hash":
+                c = {"op": "read", "sri": [{"a": "sha256", "d": datas[o["d"]]}]}
+            elif name in ("remove_hash", "exists"):
+                c = {"op": name, "sri": [{"a": "sha256", "d": datas[o["d"]]}]}
+            else:
+                c = {"op": "list"}
+            procs[pidx[st["p"]]] = dict(c, lane=lane)
+        if any(x is None for x in procs):
+            continue
+        out.append({"universe": {"keys": prog["keys"], "blobs": prog["blobs"]}, "warm": [],
+                    "procs": procs, "cont": [],
+                    "plan": {"kind": "model", "steps": [(pidx[st["p"]], st["a"]) for st in b["steps"]],
+                             "expect": {str(pidx[r["p"]]): r["ok"] for r in b["results"]}},
+                    "variant": {"model": [st["o"]["op"] for st in b["steps"] if st["a"] == "start"]}})
+    return out, {"behaviours_exported": len(behs), "overlapping": len(good)}
 
 
 def schedules_for(sc, na, nb, rng, per_i=4, max_i=None):
